@@ -37,10 +37,10 @@ Key3(p) == <<p[1], p[2], p[3]>>
 
 MaxOf(S) == CHOOSE v \in S : \A w \in S : w <= v
 (* what node n has acknowledged by the next state: success replies it put on the wire, its commit index as leader *)
-AckOf(n) ==
+AckSent(n) ==
   {chan'[n][j][k].next - 1 : <<j, k>> \in {<<j2, k2>> \in Nodes \X (1..8) :
         k2 <= Len(chan'[n][j2]) /\ chan'[n][j2][k2].t = "nni" /\ chan'[n][j2][k2].success}}
-  \cup (IF node'[n].role = "L" THEN {node'[n].commit} ELSE {})
+AckOf(n) == AckSent(n) \cup (IF node'[n].role = "L" THEN {node'[n].commit} ELSE {})
 
 GOf(nd) == UNION {HistPairs(nd[n]) : n \in {m \in Nodes : nd[m].alive}}
 CGOf(nd) == UNION {CommittedOf(nd[n]) : n \in {m \in Nodes : nd[m].alive}}
@@ -75,7 +75,13 @@ GNextWith(extra) ==
                         ELSE LET p == CHOOSE q \in new : node'[q[1]].queue[q[2]].cb.cid = c IN node[p[1]].ver]
          /\ preCrash' = [n \in Nodes |->
                IF node[n].alive /\ ~node'[n].alive
-               THEN [has |-> TRUE, log |-> node[n].log, ack |-> ackIdx[n],
+               THEN LET kx == {s \in extra : s.n = n}        \* killed in the middle of this step: what it had reached
+                    IN
+                    [has |-> TRUE, log |-> IF kx # {} THEN (CHOOSE s \in kx : TRUE).log ELSE node[n].log,
+                     \* success replies it put on the wire in the very step it died in count as acknowledgements too
+                     ack |-> MaxOf({ackIdx[n]} \cup (IF kx # {} THEN AckSent(n) ELSE {})),
+                     \* term and vote it had made known before the step it died in
+                     term |-> node[n].term, votedFor |-> node[n].votedFor, inside |-> (kx # {}),
                      \* the process died in a tick of its own that had a finished serialization to acknowledge
                      trimming |-> (lastTick' = n /\ node[n].serPid = -1),
                      jlog |-> IF "disk" \in DOMAIN node'[n] THEN node'[n].disk.jlog ELSE <<>>]
@@ -201,21 +207,35 @@ HistTriples(s) == {<<s.hist[k][1], s.hist[k][2], s.hist[k][3]>> : k \in 1..Len(s
 SameMethodEverywhere ==
   \A a, b \in Nodes : (Live(a) /\ Live(b)) =>
      \A x \in HistTriples(node[a]), y \in HistTriples(node[b]) : (x[1] = y[1] /\ x[2] = y[2]) => x[3] = y[3]
+(* The test class provides implementations of the versioned method for the versions in ImplVers; the enabled version *)
+(* may be any number up to the highest one the node's code has.                                                       *)
+ImplVers == {0, 2, 11}
+MaxVer == 11
+Resolve(v) == MaxOf({i \in ImplVers : i <= v})
+VerCmd(k) == "ver:" \o ToString(k)
+IsVerCmd(c) == \E k \in 0..(MaxVer + 3) : c = VerCmd(k)
+VerOf(c) == CHOOSE k \in 0..(MaxVer + 3) : c = VerCmd(k)
 (* a versioned call executes the newest implementation not above the version enabled at the caller when it was made *)
 CallUsesEnabledVersion ==
   \A n \in Nodes : Live(n) =>
-     \A x \in HistTriples(node[n]) : (x[2] \in DOMAIN subm) => x[3] = subm[x[2]]
+     \A x \in HistTriples(node[n]) : (x[2] \in DOMAIN subm) => x[3] = Resolve(subm[x[2]])
 (* the method-name table a node resolves calls with is the one of its enabled version *)
-NameTableMatchesVersion == \A n \in Nodes : (Live(n) /\ ~node[n].needLoad) => node[n].names = node[n].ver
+NameTableMatchesVersion == \A n \in Nodes : (Live(n) /\ ~node[n].needLoad) => node[n].names = Resolve(node[n].ver)
+(* a node's enabled version is the highest one switched to in the prefix it has applied (a switch to a lower version *)
+(* than the enabled one is refused when it is applied) - also after a restart or a snapshot installation that       *)
+(* skipped the switch entries themselves                                                                             *)
+SwitchesUpTo(i) == {p \in CG : p[1] <= i /\ IsVerCmd(p[3])}
+ExpectedVer(i) == MaxOf({0} \cup {VerOf(p[3]) : p \in SwitchesUpTo(i)})
+VersionFromLog ==
+  \A n \in Nodes : (Live(n) /\ ~node[n].needLoad) => node[n].ver = ExpectedVer(node[n].applied)
 (* a node whose code lacks an enabled version does not apply the switch nor anything after it *)
-VerCmd(k) == "ver:" \o ToString(k)
 LackingNodeStops ==
   \A n \in Nodes : Live(n) =>
      \A i \in 1..Len(node[n].log) :
-        (\E k \in 0..4 : k > node[n].codeVer /\ node[n].log[i].cmd = VerCmd(k)) => node[n].applied < node[n].log[i].idx
+        (\E k \in 0..(MaxVer + 3) : k > node[n].codeVer /\ node[n].log[i].cmd = VerCmd(k)) => node[n].applied < node[n].log[i].idx
 (* only supported versions ever get into a log *)
 SwitchValidation ==
-  \A n \in Nodes : Live(n) => \A i \in 1..Len(node[n].log) : \A k \in 3..6 : node[n].log[i].cmd # VerCmd(k)
+  \A n \in Nodes : Live(n) => \A i \in 1..Len(node[n].log) : \A k \in (MaxVer + 1)..(MaxVer + 3) : node[n].log[i].cmd # VerCmd(k)
 
 (* C18: a read-only node never votes, never stands, never leads *)
 ObserverNeverVotesOrLeads ==
@@ -275,6 +295,7 @@ StateViolations ==
 \cup (IF CallUsesEnabledVersion THEN {} ELSE {"C17.CallUsesEnabledVersion"})
 \cup (IF NameTableMatchesVersion THEN {} ELSE {"C17.NameTableMatchesVersion"})
 \cup (IF LackingNodeStops THEN {} ELSE {"C17.LackingNodeStops"})
+\cup (IF VersionFromLog THEN {} ELSE {"C17.VersionFromLog"})
 \cup (IF SwitchValidation THEN {} ELSE {"C17.SwitchValidation"})
 \cup (IF OneChangeAtATime THEN {} ELSE {"C10.OneChangeAtATime"})
 \cup (IF ViewFromLog THEN {} ELSE IF \A n \in ViewBad : ReapplySig(n) \/ reapply[n] > 0 THEN {"C10.ViewFromLog#KF1"}
@@ -383,7 +404,21 @@ InstallOlderSig(n) ==
 MonoBad == {n \in Nodes : BothLive(n) /\ ~(node'[n].commit >= node[n].commit /\ node'[n].applied >= node[n].applied)}
 HistBad == {n \in Nodes : BothLive(n) /\ ~(Len(node[n].hist) <= Len(node'[n].hist) /\ SubSeq(node'[n].hist, 1, Len(node[n].hist)) = node[n].hist)}
 
+(* C07: a vote granted before the process died is still known after the restart (same term => same vote) *)
+VoteSurvives ==
+  \A n \in Nodes : (Journal /\ ~node[n].alive /\ node'[n].alive /\ preCrash[n].has /\ preCrash[n].votedFor # Nil
+                     /\ node'[n].term = preCrash[n].term) => node'[n].votedFor = preCrash[n].votedFor
+(* ... which is decided the moment the process dies between two steps: what a restart will read holds the vote *)
+VoteDurableAtDeath ==
+  \A n \in Nodes : (Journal /\ node[n].alive /\ ~node'[n].alive /\ "disk" \in DOMAIN node'[n] /\ node[n].votedFor # Nil
+                     /\ preCrash'[n].has /\ ~preCrash'[n].inside) =>
+        (node'[n].disk.term = node[n].term => node'[n].disk.votedFor = node[n].votedFor)
+(* C17: requests to enable a lower version are rejected: the enabled version of a running node never goes down *)
+VersionNeverLowered == \A n \in Nodes : BothLive(n) => node'[n].ver >= node[n].ver
 StepViolations ==
+     (IF VersionNeverLowered THEN {} ELSE {"C17.VersionNeverLowered"}) \cup
+     (IF VoteSurvives THEN {} ELSE {"C07.VoteSurvives"}) \cup
+     (IF VoteDurableAtDeath THEN {} ELSE {"C07.VoteDurableAtDeath"}) \cup
      (IF MonotoneIndices THEN {} ELSE IF \A n \in MonoBad : InstallOlderSig(n) THEN {"C04.MonotoneIndices#KF7"} ELSE {"C04.MonotoneIndices"})
 \cup (IF HistAppendOnly THEN {} ELSE IF \A n \in HistBad : InstallOlderSig(n) THEN {"C01.HistAppendOnly#KF7"} ELSE {"C01.HistAppendOnly"})
 \cup (IF CommitIsQuorumBacked THEN {} ELSE {"C04.CommitIsQuorumBacked"})
